@@ -230,6 +230,18 @@ func PubKeyJSON(i int) string {
 	return string(b)
 }
 
+// ImpostorPubJSON is the public JWK of key `material` carrying the key id of key `kid`:
+// a key that merely claims the signer's identity.
+func ImpostorPubJSON(material, kid int) string {
+	var m map[string]any
+	json.Unmarshal([]byte(PubKeyJSON(material)), &m)
+	var k map[string]any
+	json.Unmarshal([]byte(PubKeyJSON(kid)), &k)
+	m["kid"] = k["kid"]
+	b, _ := json.Marshal(m)
+	return string(b)
+}
+
 // PublicOnlyAsPrivate is a "private key" object that only holds the public part.
 func PublicOnlyAsPrivate(i int) *dsig.PrivateKey {
 	k := new(dsig.PrivateKey)
